@@ -353,7 +353,15 @@ func genC05(g *Gen, c09 bool) {
 		if r.Bool() {
 			flat = splitMix(r, t)
 		}
-		g.Add(c05Norm(flat, o, descTree(flat), "flat"))
+		// the runtime picks the order in which the keys of flat are inserted, and the internal tree
+		// may depend on it (a padding nil merged with a literal nil becomes an empty object): the
+		// model must produce the observed tree under some insertion order
+		if len(flat) <= 6 {
+			oc, od, _ := newFromObs(flat, o)
+			g.Add(Case{Coq: fmt.Sprintf("CNormSet %s %s %s", o.coq(), kvsOf(flat), coqList([]string{oc})),
+				Desc: map[string]interface{}{"kind": "normset", "input": descTree(flat), "outcomes": []string{od}},
+				Tags: []string{"norm", "flat"}, Nontrivial: true})
+		}
 		c1, d1, _ := newFromObs(t, o)
 		c2, d2, _ := newFromObs(flat, o)
 		g.Add(Case{Coq: fmt.Sprintf("CSame %s %s %s", coqStr("dotted"), c1, c2),
